@@ -8,6 +8,7 @@ import (
 	"io"
 	"reflect"
 	"runtime"
+	"strings"
 	"sync"
 	"testing"
 	"time"
@@ -437,8 +438,60 @@ func TestC20(t *testing.T) {
 		for i := 0; i < vh.Pick(25, 50); i++ {
 			good = append(good, g.entry(false))
 		}
-		for _, class := range []string{"v1-id", "not-in-dialect", "nil-message"} {
+		for _, class := range []string{"v1-id", "not-in-dialect", "nil-message", "panic:nil-frame", "panic:signed-without-signature", "panic:oversized-raw"} {
 			for pos := 0; pos <= len(good); pos++ {
+				if strings.HasPrefix(class, "panic:") {
+					// entries that make the encoder panic (an application bug; the application recovers and goes on logging with the
+					// same Writer): whether Write panics or returns an error, nothing of the entry is in the file and the log stays
+					// the concatenation of the accepted entries
+					if pos%5 != 0 && pos != len(good) {
+						continue
+					}
+					var bf frame.Frame
+					switch class {
+					case "panic:signed-without-signature":
+						bf = &frame.V2Frame{IncompatibilityFlag: 1, SystemID: 1, ComponentID: 1, Message: &message.MessageRaw{ID: 77, Payload: []byte{1, 2, 3}}}
+					case "panic:oversized-raw":
+						bf = &frame.V2Frame{SystemID: 1, ComponentID: 1, Message: &message.MessageRaw{ID: 77, Payload: make([]byte, 700)}}
+					}
+					rep.Eval(1)
+					rep.Count("panicking_entry_positions", 1)
+					rw := &recWriter{}
+					w := &tlog.Writer{ByteWriter: rw, DialectRW: genv.drw}
+					_ = w.Initialize()
+					var image []byte
+					for i := 0; i <= len(good); i++ {
+						if i == pos {
+							before := len(rw.all())
+							func() {
+								defer func() {
+									if recover() != nil {
+										rep.Count("entries_that_made_write_panic", 1)
+									}
+								}()
+								_ = w.Write(&tlog.Entry{Time: c20time(g.r), Frame: bf})
+							}()
+							if class != "panic:oversized-raw" && len(rw.all()) != before {
+								rep.Violation("what=orphan:"+class, "an entry that cannot be encoded (the encoder panicked or refused) left bytes in the log", map[string]interface{}{"position": pos})
+							}
+							if len(rw.all()) != before {
+								break // (an oversized raw payload that the writer accepts is outside the statement: stop this history)
+							}
+						}
+						if i < len(good) {
+							_ = w.Write(&tlog.Entry{Time: good[i].t, Frame: good[i].frame()})
+							image = append(image, good[i].image...)
+						}
+					}
+					if len(image) > 0 && bytes.HasPrefix(image, rw.all()) && len(rw.all()) != len(image) && class == "panic:oversized-raw" {
+						continue
+					}
+					if !bytes.Equal(rw.all(), image) {
+						rep.Violation("what=orphan:"+class, "after an entry that made the encoder panic (recovered by the application) the log is no longer the concatenation of the accepted entries",
+							map[string]interface{}{"position": pos, "log_len": len(rw.all()), "want_len": len(image)})
+					}
+					continue
+				}
 				rep.Eval(1)
 				rep.Count("unencodable_positions", 1)
 				bad := &c20entry{t: c20time(g.r), bad: class, spec: c01random(g.r, c01cfg{version: 1})}
